@@ -24,6 +24,7 @@ import (
 	"fmt"
 	"os"
 	"path/filepath"
+	"runtime"
 	"strings"
 	"sync"
 	"testing"
@@ -41,7 +42,7 @@ import (
 const interval = time.Hour
 
 type action struct {
-	Kind string `json:"kind"` // sleep | wake | finish | fire | enter | pollend
+	Kind string `json:"kind"` // sleep | wake | finish | fire | enter | pollend | pollcall | stop-load | stop-start | crash-load | crash-start
 	Idx  int    `json:"idx,omitempty"`
 }
 
@@ -56,6 +57,10 @@ func (a action) String() string {
 type caseSpec struct {
 	Actions []action `json:"actions"`
 	Why     string   `json:"why,omitempty"`
+	// replay of the scenarios that are not action schedules
+	Scenario string `json:"scenario,omitempty"`
+	DelayMs  int    `json:"delay_ms,omitempty"`
+	Wake     *bool  `json:"wake_while_held_before_disconnect,omitempty"`
 }
 
 type obs struct {
@@ -80,6 +85,7 @@ type world struct {
 	enterGates []chan struct{}
 	enterOpen  []bool
 	starting   int // requester being started (its goroutine id for the callback)
+	epoch      int // process lifetime; callbacks of an earlier lifetime do nothing
 }
 
 func readPersist(path string) (int, bool) {
@@ -96,48 +102,99 @@ func readPersist(path string) (int, bool) {
 	return p.State, true
 }
 
-// runCase executes the actions; it stops at the first action that is not
-// enabled (returns how many were executed) and reports the actions enabled at the end.
+// markFile re-writes the state file with an extra field the manager never
+// writes: a later file without the field was written by the manager.
+func markFile(path string) {
+	b, err := os.ReadFile(path)
+	if err != nil {
+		return
+	}
+	var m map[string]json.RawMessage
+	if json.Unmarshal(b, &m) != nil {
+		return
+	}
+	m["verif_marker"] = json.RawMessage("1")
+	if nb, err := json.Marshal(m); err == nil {
+		os.WriteFile(path, nb, 0o600)
+	}
+}
+
+func hasMarker(path string) (exists, marked bool) {
+	b, err := os.ReadFile(path)
+	if err != nil {
+		return false, false
+	}
+	var m map[string]json.RawMessage
+	if json.Unmarshal(b, &m) != nil {
+		return true, false
+	}
+	_, marked = m["verif_marker"]
+	return true, marked
+}
+
+// runCase executes the actions (skipping those that are not enabled when
+// their turn comes) and reports the executed ones, the observations and the
+// actions enabled at the end.
 func runCase(t *testing.T, dir string, cs *caseSpec) (out []obs, done []action, enabled []action, panicked string) {
 	synctest.Test(t, func(t *testing.T) {
 		panicked = vh.Recover(func() {
 			w := &world{inCb: -1}
 			cfg := config.SleepConfig{Enabled: true, PollInterval: interval, PollIntervalJitter: 0, PollDuration: time.Millisecond, PersistState: true}
-			mgr := sleep.NewManager(cfg, dir, logging.NewLogger("error", "text"))
 			stateFile := filepath.Join(dir, "sleep_state.json")
 			os.Remove(stateFile)
-			block := func(code int) func() error {
-				return func() error {
-					w.mu.Lock()
-					w.log = append(w.log, code)
-					w.inCb = w.starting
-					g := make(chan struct{})
-					w.reqGate = g
-					w.mu.Unlock()
-					<-g
-					return nil
+			os.Remove(stateFile + ".tmp")
+			// one Manager per process lifetime; callbacks of an ended lifetime do nothing
+			newManager := func() *sleep.Manager {
+				w.mu.Lock()
+				ep := w.epoch
+				w.mu.Unlock()
+				dead := func() bool { return w.epoch != ep }
+				block := func(code int) func() error {
+					return func() error {
+						w.mu.Lock()
+						if dead() {
+							w.mu.Unlock()
+							return nil
+						}
+						w.log = append(w.log, code)
+						w.inCb = w.starting
+						g := make(chan struct{})
+						w.reqGate = g
+						w.mu.Unlock()
+						<-g
+						return nil
+					}
 				}
+				m := sleep.NewManager(cfg, dir, logging.NewLogger("error", "text"))
+				m.SetCallbacks(sleep.Callbacks{
+					OnSleep: block(0),
+					OnWake:  block(1),
+					OnPoll: func() error {
+						w.mu.Lock()
+						if dead() {
+							w.mu.Unlock()
+							return nil
+						}
+						w.log = append(w.log, 2)
+						g := make(chan struct{})
+						w.pollGates = append(w.pollGates, g)
+						w.pollOpen = append(w.pollOpen, true)
+						w.mu.Unlock()
+						<-g
+						return nil
+					},
+					OnPollEnd: func() error {
+						w.mu.Lock()
+						if !dead() {
+							w.log = append(w.log, 3)
+						}
+						w.mu.Unlock()
+						return nil
+					},
+				})
+				return m
 			}
-			mgr.SetCallbacks(sleep.Callbacks{
-				OnSleep: block(0),
-				OnWake:  block(1),
-				OnPoll: func() error {
-					w.mu.Lock()
-					w.log = append(w.log, 2)
-					g := make(chan struct{})
-					w.pollGates = append(w.pollGates, g)
-					w.pollOpen = append(w.pollOpen, true)
-					w.mu.Unlock()
-					<-g
-					return nil
-				},
-				OnPollEnd: func() error {
-					w.mu.Lock()
-					w.log = append(w.log, 3)
-					w.mu.Unlock()
-					return nil
-				},
-			})
+			mgr := newManager()
 			sleep.VerifSetYieldHook(func(point string) {
 				if point != "sleep.poll.before-onpoll" {
 					return
@@ -153,28 +210,50 @@ func runCase(t *testing.T, dir string, cs *caseSpec) (out []obs, done []action, 
 			persist, writes := 0, 0
 			observe := func() obs {
 				synctest.Wait()
-				if st, ok := readPersist(stateFile); ok {
-					persist = st
+				if exists, marked := hasMarker(stateFile); exists && !marked {
+					if st, ok := readPersist(stateFile); ok {
+						persist = st
+					}
 					writes++
-					os.Remove(stateFile)
+					markFile(stateFile)
 				}
 				w.mu.Lock()
 				defer w.mu.Unlock()
 				return obs{State: int(mgr.GetState()), Persist: persist, Log: append([]int(nil), w.log...), Results: append([]int(nil), w.results...), Writes: writes, Started: len(w.enterGates), InCb: w.inCb}
 			}
+			releasePollers := func() {
+				w.mu.Lock()
+				for k, open := range w.enterOpen {
+					if open {
+						close(w.enterGates[k])
+						w.enterOpen[k] = false
+					}
+				}
+				w.mu.Unlock()
+				synctest.Wait()
+				w.mu.Lock()
+				for k, open := range w.pollOpen {
+					if open {
+						close(w.pollGates[k])
+						w.pollOpen[k] = false
+					}
+				}
+				w.mu.Unlock()
+				synctest.Wait()
+			}
 			isEnabled := func(a action) bool {
 				w.mu.Lock()
 				defer w.mu.Unlock()
 				switch a.Kind {
-				case "sleep", "wake":
+				case "sleep", "wake", "pollcall", "stop-load", "stop-start", "crash-load", "crash-start":
 					return w.inCb == -1
 				case "finish":
 					return w.inCb == a.Idx && a.Idx >= 0
 				case "fire":
-					// While a requester sits in its callback the lock is held. On the code as it is no
-					// timer can be armed then (Sleep arms it when it finishes, Wake stops it before its
-					// callback), so nothing is lost; if a change made one fire here, Poll would wait on
-					// the mutex, which synctest does not treat as durably blocked (deadlock panic).
+					// While a requester sits in its callback the lock is held; a Poll started then
+					// would wait on the mutex, which synctest does not treat as durably blocked
+					// (deadlock panic). Polls that contend for the lock are exercised by the
+					// real-time scenarios below.
 					return w.inCb == -1
 				case "enter":
 					return a.Idx >= 0 && a.Idx < len(w.enterOpen) && w.enterOpen[a.Idx]
@@ -196,12 +275,12 @@ func runCase(t *testing.T, dir string, cs *caseSpec) (out []obs, done []action, 
 					w.kinds = append(w.kinds, a.Kind)
 					w.starting = j
 					w.mu.Unlock()
-					go func(kind string) {
+					go func(kind string, m *sleep.Manager) {
 						var err error
 						if kind == "sleep" {
-							err = mgr.Sleep()
+							err = m.Sleep()
 						} else {
-							err = mgr.Wake()
+							err = m.Wake()
 						}
 						code := 9
 						switch err {
@@ -218,7 +297,7 @@ func runCase(t *testing.T, dir string, cs *caseSpec) (out []obs, done []action, 
 							w.inCb = -1
 						}
 						w.mu.Unlock()
-					}(a.Kind)
+					}(a.Kind, mgr)
 				case "finish":
 					w.mu.Lock()
 					g := w.reqGate
@@ -226,6 +305,8 @@ func runCase(t *testing.T, dir string, cs *caseSpec) (out []obs, done []action, 
 					close(g)
 				case "fire":
 					time.Sleep(interval + time.Millisecond)
+				case "pollcall":
+					go func(m *sleep.Manager) { m.Poll() }(mgr)
 				case "enter":
 					w.mu.Lock()
 					g := w.enterGates[a.Idx]
@@ -239,6 +320,34 @@ func runCase(t *testing.T, dir string, cs *caseSpec) (out []obs, done []action, 
 					w.mu.Unlock()
 					close(g)
 					time.Sleep(2 * time.Millisecond)
+				case "stop-load", "stop-start", "crash-load", "crash-start":
+					// end of the process: Stop() (which writes the current state), or a crash,
+					// imitated by putting the file back as it was before Stop() wrote it
+					synctest.Wait()
+					var saved []byte
+					crash := strings.HasPrefix(a.Kind, "crash")
+					if crash {
+						saved, _ = os.ReadFile(stateFile)
+					}
+					mgr.Stop()
+					if crash {
+						if saved != nil {
+							os.WriteFile(stateFile, saved, 0o600)
+						} else {
+							os.Remove(stateFile)
+						}
+					}
+					w.mu.Lock()
+					w.epoch++
+					w.mu.Unlock()
+					releasePollers()
+					// the new process
+					mgr = newManager()
+					if strings.HasSuffix(a.Kind, "start") {
+						mgr.Start()
+					} else {
+						mgr.LoadState()
+					}
 				}
 				out = append(out, observe())
 			}
@@ -246,7 +355,7 @@ func runCase(t *testing.T, dir string, cs *caseSpec) (out []obs, done []action, 
 			w.mu.Lock()
 			nReq, nPoll, nEnter := len(w.results), len(w.pollOpen), len(w.enterOpen)
 			w.mu.Unlock()
-			cands := []action{{Kind: "sleep"}, {Kind: "wake"}, {Kind: "fire"}}
+			cands := []action{{Kind: "sleep"}, {Kind: "wake"}, {Kind: "fire"}, {Kind: "pollcall"}, {Kind: "stop-load"}, {Kind: "stop-start"}, {Kind: "crash-load"}, {Kind: "crash-start"}}
 			for j := 0; j < nReq; j++ {
 				cands = append(cands, action{Kind: "finish", Idx: j})
 			}
@@ -270,22 +379,9 @@ func runCase(t *testing.T, dir string, cs *caseSpec) (out []obs, done []action, 
 			synctest.Wait()
 			mgr.Stop()
 			w.mu.Lock()
-			for k, open := range w.enterOpen {
-				if open {
-					close(w.enterGates[k])
-					w.enterOpen[k] = false
-				}
-			}
+			w.epoch++
 			w.mu.Unlock()
-			synctest.Wait()
-			w.mu.Lock()
-			for k, open := range w.pollOpen {
-				if open {
-					close(w.pollGates[k])
-					w.pollOpen[k] = false
-				}
-			}
-			w.mu.Unlock()
+			releasePollers()
 			time.Sleep(5 * time.Millisecond)
 			synctest.Wait()
 		})
@@ -376,6 +472,138 @@ func agentDoPoll(t *testing.T, dir string, wakeDuringWindow bool) (o agentObs, p
 	return
 }
 
+// ---------------------------------------------------------------------------
+// Real-time lock-contention scenarios. A goroutine that waits for stateMu is
+// not "durably blocked" for synctest, so interleavings in which Poll() or
+// Wake() wait for the lock while the other sits in a callback cannot run in a
+// bubble. They need no timers (Poll is called directly, as the timer's
+// goroutine would), so they run in real time here, event driven, and are
+// judged by the property's text only: once a Wake() has returned nil (and no
+// Sleep() was asked for afterwards) the agent is AWAKE, the file says AWAKE,
+// no poll is scheduled and no poll callback runs any more.
+
+type contObs struct {
+	Scenario  string `json:"scenario"`
+	DelayMs   int    `json:"delay_ms"`
+	WakeErr   string `json:"wake_err"`
+	State     int    `json:"state_after"`
+	File      int    `json:"file_after"`
+	NextPoll  bool   `json:"poll_scheduled_after"`
+	Log       []int  `json:"log"`
+	LogAtWake int    `json:"log_len_when_wake_returned"`
+	TimedOut  string `json:"timed_out,omitempty"`
+}
+
+func contention(dir, scenario string, delayMs int) (o contObs) {
+	o.Scenario, o.DelayMs = scenario, delayMs
+	cfg := config.SleepConfig{Enabled: true, PollInterval: time.Hour, PollIntervalJitter: 0, PollDuration: time.Millisecond, PersistState: true}
+	os.Remove(filepath.Join(dir, "sleep_state.json"))
+	mgr := sleep.NewManager(cfg, dir, logging.NewLogger("error", "text"))
+	var mu sync.Mutex
+	var log []int
+	add := func(c int) {
+		mu.Lock()
+		log = append(log, c)
+		mu.Unlock()
+	}
+	wakeEntered, wakeGate := make(chan struct{}, 1), make(chan struct{})
+	endEntered, endGate := make(chan struct{}, 1), make(chan struct{})
+	blockEnd := scenario == "wake-during-poll-end"
+	mgr.SetCallbacks(sleep.Callbacks{
+		OnSleep: func() error { add(0); return nil },
+		OnWake: func() error {
+			add(1)
+			wakeEntered <- struct{}{}
+			<-wakeGate
+			return nil
+		},
+		OnPoll: func() error { add(2); return nil },
+		OnPollEnd: func() error {
+			add(3)
+			if blockEnd {
+				select {
+				case endEntered <- struct{}{}:
+				default:
+				}
+				<-endGate
+			}
+			return nil
+		},
+	})
+	wait := func(ch <-chan struct{}, what string, d time.Duration) bool {
+		select {
+		case <-ch:
+			return true
+		case <-time.After(d):
+			if o.TimedOut == "" {
+				o.TimedOut = what
+			}
+			return false
+		}
+	}
+	pollDone, wakeDone := make(chan struct{}), make(chan struct{})
+	var wakeErr error
+	if err := mgr.Sleep(); err != nil {
+		o.TimedOut = "sleep: " + err.Error()
+		return
+	}
+	switch scenario {
+	case "poll-while-wake-holds-lock":
+		go func() { wakeErr = mgr.Wake(); mu.Lock(); o.LogAtWake = len(log); mu.Unlock(); close(wakeDone) }()
+		if !wait(wakeEntered, "OnWake entry", 10*time.Second) {
+			close(wakeGate)
+			return
+		}
+		go func() { mgr.Poll(); close(pollDone) }() // the timer's goroutine, started just before Wake stopped the timer
+		time.Sleep(time.Duration(delayMs) * time.Millisecond)
+		for i := 0; i < 200; i++ {
+			runtimeGosched()
+		}
+		close(wakeGate)
+		wait(wakeDone, "Wake return", 10*time.Second)
+		wait(pollDone, "Poll return", 10*time.Second)
+	case "wake-during-poll-end":
+		go func() { mgr.Poll(); close(pollDone) }()
+		if !wait(endEntered, "OnPollEnd entry", 10*time.Second) {
+			close(endGate)
+			close(wakeGate)
+			return
+		}
+		go func() { wakeErr = mgr.Wake(); mu.Lock(); o.LogAtWake = len(log); mu.Unlock(); close(wakeDone) }()
+		// on the code as it is Wake now waits for the lock that Poll holds across OnPollEnd
+		select {
+		case <-wakeEntered:
+			close(wakeGate)
+			wait(wakeDone, "Wake return", 10*time.Second)
+			time.Sleep(time.Duration(delayMs) * time.Millisecond)
+			close(endGate)
+		case <-time.After(time.Duration(5+delayMs) * time.Millisecond):
+			close(endGate)
+			if wait(wakeEntered, "OnWake entry", 10*time.Second) {
+				close(wakeGate)
+			} else {
+				close(wakeGate)
+			}
+			wait(wakeDone, "Wake return", 10*time.Second)
+		}
+		wait(pollDone, "Poll return", 10*time.Second)
+	}
+	time.Sleep(5 * time.Millisecond)
+	if wakeErr != nil {
+		o.WakeErr = wakeErr.Error()
+	}
+	o.State = int(mgr.GetState())
+	o.File, _ = readPersist(filepath.Join(dir, "sleep_state.json"))
+	o.NextPoll = !mgr.GetStatus().NextPollTime.IsZero()
+	mu.Lock()
+	o.Log = append([]int(nil), log...)
+	mu.Unlock()
+	mgr.Stop()
+	return
+}
+
+func runtimeGosched() { runtime.Gosched() }
+
 var edgeOK = map[[2]int]bool{{0, 1}: true, {1, 2}: true, {2, 1}: true, {1, 0}: true, {2, 0}: true}
 
 // monitor: the text of C30 on the observations (no model).
@@ -389,6 +617,21 @@ func monitor(c *vh.Ctx, cs *caseSpec, out []obs) {
 		a := cs.Actions[i]
 		if a.Kind == "sleep" || a.Kind == "wake" {
 			reqKind = append(reqKind, a.Kind)
+		}
+		if strings.HasPrefix(a.Kind, "stop-") || strings.HasPrefix(a.Kind, "crash-") {
+			// a new process must come up in the state the file held when the old one ended
+			want := prev.Persist
+			if strings.HasPrefix(a.Kind, "stop-") {
+				want = prev.State // Stop() writes the current state
+			}
+			if o.State != want {
+				c.Fail("restart-resumed-wrong-state", fmt.Sprintf("action %d (%s): state before %d, file before %d, new process came up in state %d", i, a, prev.State, prev.Persist, o.State), cs)
+			}
+			if o.Persist != o.State {
+				c.Fail("persisted-state-differs", fmt.Sprintf("action %d (%s): state %d, state file %d", i, a, o.State, o.Persist), cs)
+			}
+			prev = o
+			continue
 		}
 		// edges
 		if o.State != prev.State && !edgeOK[[2]int{prev.State, o.State}] {
@@ -465,6 +708,16 @@ func coqAction(a action) string {
 		return "AFire"
 	case "enter":
 		return fmt.Sprintf("AEnter %d", a.Idx)
+	case "pollcall":
+		return "ACallPoll"
+	case "stop-load":
+		return "ARestart true false"
+	case "stop-start":
+		return "ARestart true true"
+	case "crash-load":
+		return "ARestart false false"
+	case "crash-start":
+		return "ARestart false true"
 	default:
 		return fmt.Sprintf("APollEnd %d", a.Idx)
 	}
@@ -507,7 +760,7 @@ func TestVerif(t *testing.T) {
 		for _, a := range cs.Actions {
 			key += a.String() + " "
 			c.Count("action:" + a.Kind)
-			if a.Kind == "fire" || a.Kind == "sleep" || a.Kind == "wake" {
+			if a.Kind == "fire" || a.Kind == "sleep" || a.Kind == "wake" || strings.Contains(a.Kind, "-") {
 				nontriv++
 			}
 		}
@@ -540,13 +793,79 @@ func TestVerif(t *testing.T) {
 		return cs
 	}
 
+	runContention := func(sc string, d int) {
+		nDir++
+		dir := filepath.Join(base, fmt.Sprintf("cont%d", nDir))
+		os.MkdirAll(dir, 0o755)
+		var co contObs
+		if p := vh.Recover(func() { co = contention(dir, sc, d) }); p != "" {
+			c.Fail("panic", p, map[string]any{"scenario": sc, "delay_ms": d})
+			return
+		}
+		c.Case(fmt.Sprintf("contention/%s/%d", sc, d), true, co)
+		c.Count("contention:" + sc)
+		coq = append(coq, "[]")
+		if co.TimedOut != "" {
+			c.Fail("contention-scenario-stuck", fmt.Sprintf("%s: timed out waiting for %s", sc, co.TimedOut), co)
+			return
+		}
+		if co.WakeErr != "" {
+			return // the wake was refused; nothing is claimed
+		}
+		late := false
+		for _, e := range co.Log[co.LogAtWake:] {
+			if e == 2 || e == 3 {
+				late = true
+			}
+		}
+		if co.State != 0 || co.File != 0 || co.NextPoll || late {
+			sig := "wake-overtaken-by-concurrent-poll"
+			if sc == "wake-during-poll-end" {
+				sig = "wake-undone-by-poll-end"
+			}
+			c.Fail(sig, fmt.Sprintf("%s: Wake() returned nil, afterwards state=%d file=%d poll scheduled=%v callbacks %v (first %d before the wake returned)", sc, co.State, co.File, co.NextPoll, co.Log, co.LogAtWake), co)
+		}
+
+	}
+	runAgentDoPoll := func(wake bool) {
+		nDir++
+		dir := filepath.Join(base, fmt.Sprintf("agent%d", nDir))
+		os.MkdirAll(dir, 0o755)
+		ao, p := agentDoPoll(t, dir, wake)
+		rp := map[string]any{"scenario": "agent-dopoll", "wake_while_held_before_disconnect": wake, "observed": ao}
+		if p != "" {
+			c.Fail("panic", p, rp)
+			return
+		}
+		c.Case(fmt.Sprintf("agent-dopoll/%v", wake), true, rp)
+		c.Count("agent-dopoll")
+		coq = append(coq, "[]")
+		if !ao.Reached {
+			c.Fail("agent-dopoll-scenario-not-reached", "doPoll did not reach the scheduling point before DisconnectAll", rp)
+			return
+		}
+		if wake && ao.StateAfter == 0 && !ao.PausedAtWake && ao.PausedEnd {
+			c.Fail("agent-dopoll-disconnects-after-wake", "agent.doPoll read a non-awake state, Wake() completed (state AWAKE), then doPoll called DisconnectAll: peers dropped and reconnection paused while awake", rp)
+		}
+		if !wake && !ao.PausedEnd {
+			c.Fail("agent-dopoll-did-not-disconnect", "poll window ended while still sleeping but the peers were not disconnected", rp)
+		}
+
+	}
 	if c.Replay != "" {
 		var cs caseSpec
 		if err := c.ReadReplay(&cs); err != nil {
 			t.Fatal(err)
 		}
 		seen = map[string]bool{}
-		do(&cs)
+		switch {
+		case cs.Scenario == "agent-dopoll":
+			runAgentDoPoll(cs.Wake != nil && *cs.Wake)
+		case cs.Scenario != "":
+			runContention(cs.Scenario, cs.DelayMs)
+		default:
+			do(&cs)
+		}
 	} else {
 		// fixed witnesses first
 		for _, w := range []string{
@@ -562,6 +881,17 @@ func TestVerif(t *testing.T) {
 			"sleep finish0 fire enter0 pollend0 fire enter1 pollend1 wake finish1",
 			// refusals
 			"sleep finish0 sleep wake finish2 wake",
+			// histories that span restarts: sleep, process exit, new manager loads SLEEPING, wake before any poll, exit, restart
+			"sleep finish0 stop-load wake finish1 stop-load sleep finish2",
+			"sleep finish0 crash-start wake finish1 crash-load",
+			"sleep finish0 stop-start fire enter0 pollend0 wake finish1 stop-start",
+			// restart while polling: crash (file says SLEEPING) and Stop() (file says POLLING)
+			"sleep finish0 fire enter0 crash-start fire enter1 pollend1 wake finish1",
+			"sleep finish0 fire enter0 stop-start fire wake finish1 crash-start",
+			"sleep finish0 fire stop-load sleep wake finish2 stop-load",
+			// restart while awake, and a sleep as the first transition after a load
+			"stop-start sleep finish0 crash-load wake finish1 stop-load",
+			"crash-load sleep finish0 fire enter0 pollend0 stop-load fire wake finish1",
 			// wake completes, time passes (no timer must be left), sleep again and poll
 			"sleep finish0 wake finish1 fire sleep finish2 fire enter0 pollend0",
 		} {
@@ -571,31 +901,16 @@ func TestVerif(t *testing.T) {
 		}
 		// agent level: doPoll's unlocked "state read, then DisconnectAll" against a completing Wake
 		for _, wake := range []bool{true, false} {
-			nDir++
-			dir := filepath.Join(base, fmt.Sprintf("agent%d", nDir))
-			os.MkdirAll(dir, 0o755)
-			ao, p := agentDoPoll(t, dir, wake)
-			rp := map[string]any{"scenario": "agent-dopoll", "wake_while_held_before_disconnect": wake, "observed": ao}
-			if p != "" {
-				c.Fail("panic", p, rp)
-				continue
-			}
-			c.Case(fmt.Sprintf("agent-dopoll/%v", wake), true, rp)
-			c.Count("agent-dopoll")
-			coq = append(coq, "[]")
-			if !ao.Reached {
-				c.Fail("agent-dopoll-scenario-not-reached", "doPoll did not reach the scheduling point before DisconnectAll", rp)
-				continue
-			}
-			if wake && ao.StateAfter == 0 && !ao.PausedAtWake && ao.PausedEnd {
-				c.Fail("agent-dopoll-disconnects-after-wake", "agent.doPoll read a non-awake state, Wake() completed (state AWAKE), then doPoll called DisconnectAll: peers dropped and reconnection paused while awake", rp)
-			}
-			if !wake && !ao.PausedEnd {
-				c.Fail("agent-dopoll-did-not-disconnect", "poll window ended while still sleeping but the peers were not disconnected", rp)
+			runAgentDoPoll(wake)
+		}
+		// real-time lock-contention scenarios (monitor only)
+		for _, sc := range []string{"poll-while-wake-holds-lock", "wake-during-poll-end"} {
+			for _, d := range []int{0, 2, 6} {
+				runContention(sc, d)
 			}
 		}
 		// exhaustive enumeration of all schedules up to a length
-		depth := c.N(5, 7)
+		depth := c.N(4, 6)
 		frontier := [][]action{{}}
 		for d := 0; d < depth; d++ {
 			var next [][]action
@@ -606,6 +921,15 @@ func TestVerif(t *testing.T) {
 				} else {
 					en = do(&caseSpec{Actions: append([]action(nil), pre...)})
 				}
+				// the exhaustive part uses two of the four kinds of restart; all four occur in the
+				// witnesses and the random schedules
+				var keep []action
+				for _, a := range en {
+					if a.Kind != "stop-start" && a.Kind != "crash-load" {
+						keep = append(keep, a)
+					}
+				}
+				en = keep
 				if len(pre) > 0 && len(pre) == d && d == depth-1 {
 					// leaves are run below
 				}
@@ -630,9 +954,11 @@ func TestVerif(t *testing.T) {
 			length := 8 + r.Intn(9)
 			en := []action{{Kind: "sleep"}, {Kind: "wake"}, {Kind: "fire"}}
 			for len(seq) < length && len(en) > 0 {
-				var fin, pe, other []action
+				var fin, pe, other, rst []action
 				for _, a := range en {
 					switch a.Kind {
+					case "stop-load", "stop-start", "crash-load", "crash-start":
+						rst = append(rst, a)
 					case "enter":
 						if r.Chance(2, 3) {
 							fin = append(fin, a)
@@ -650,6 +976,8 @@ func TestVerif(t *testing.T) {
 				var pick action
 				w := r.Intn(10)
 				switch {
+				case len(rst) > 0 && r.Chance(1, 7):
+					pick = rst[r.Intn(len(rst))]
 				case len(fin) > 0 && w < 7:
 					pick = fin[0]
 				case len(pe) > 0 && w < 3:
